@@ -102,16 +102,57 @@ class StepExec:
             old = self._atom(key, target)
         env.vals[key] = {"+=": old + value, "-=": old - value, "*=": old * value, "/=": old / value}[op]
 
+    def od_relationals(self, v):
+        if not hasattr(v, "atoms"):
+            return []
+        return [r for r in v.atoms(sp.core.relational.Relational) if self.od in r.free_symbols]
+
+    def resolve(self, v, neg):
+        """v with every test of the remaining optical depth replaced by its truth on the path `neg`."""
+        rels = self.od_relationals(v)
+        if not rels:
+            return v
+        m = {}
+        for r in rels:
+            m[r] = sp.true if (self._decide(r, True) == neg) else sp.false
+        out = v.xreplace(m)
+        return sp.piecewise_fold(out) if hasattr(out, "atoms") and out.has(sp.Piecewise) else out
+
+    def needs_fork(self, st, env, state):
+        """A statement whose value tests the remaining optical depth (a flag, a conditional expression) while the path has
+        not decided it yet."""
+        if state["neg"] is not None:
+            return False
+        exprs = []
+        if st.get("k") == "Decl":
+            exprs = [d["init"] for d in st["d"] if d.get("init") is not None]
+        elif st.get("k") == "Bin" and st.get("op") in ASSIGN:
+            exprs = [st["b"]]
+        elif st.get("k") == "Call" and st.get("op") in ASSIGN and st.get("a"):
+            exprs = [st["a"][0]]
+        for e in exprs:
+            v = self._try(e, env)
+            if v is not None and self.od_relationals(v):
+                return True
+        return False
+
     def run(self, stmts, env, state):
         """state: dict(neg=None/True/False, deposits=[...], cursor_writes=[...])."""
         for i, st in enumerate(stmts):
             k = st.get("k")
+            if self.needs_fork(st, env, state):
+                for outcome in (True, False):
+                    st2 = {"neg": outcome, "deposits": list(state["deposits"]), "cursor_writes": list(state["cursor_writes"]),
+                           "cursors": state["cursors"]}
+                    self.run(stmts[i:], env.copy(), st2)
+                return
             if k == "Decl":
                 for d in st["d"]:
                     if d.get("init") is None:
                         continue
                     try:
-                        env.vals[("l", d["id"])] = self.conv.conv(d["init"], env)
+                        v_ = self.conv.conv(d["init"], env)
+                        env.vals[("l", d["id"])] = self.resolve(v_, state["neg"]) if state["neg"] is not None else v_
                     except AnalysisBroken:
                         if d["id"] in state["cursors"]:
                             state["cursor_writes"].append(st)
@@ -120,14 +161,16 @@ class StepExec:
                 if tgt["id"] in state["cursors"]:
                     state["cursor_writes"].append(st)
                     continue
-                self.assign(env, tgt, st["op"], self.conv.conv(st["b"], env))
+                v_ = self.conv.conv(st["b"], env)
+                self.assign(env, tgt, st["op"], self.resolve(v_, state["neg"]) if state["neg"] is not None else v_)
             elif k == "Call" and st.get("op") in ASSIGN and st.get("obj") is not None and local_of(st["obj"]) is not None \
                     and len(st["a"]) == 1:
                 tgt = local_of(st["obj"])
                 if tgt["id"] in state["cursors"]:
                     state["cursor_writes"].append(st)
                     continue
-                self.assign(env, tgt, st["op"], self.conv.conv(st["a"][0], env))
+                v_ = self.conv.conv(st["a"][0], env)
+                self.assign(env, tgt, st["op"], self.resolve(v_, state["neg"]) if state["neg"] is not None else v_)
             elif k == "Call" and st.get("n") == "update_integrals":
                 state["deposits"].append((st, [self._try(a, env) for a in st["a"]]))
             elif k == "If":
@@ -144,6 +187,12 @@ class StepExec:
                             continue
                         e2 = env.copy()
                         self.run(flat([branch] if branch is not None else []) + rest, e2, st2)
+                    return
+                if cond is not None and state["neg"] is not None:
+                    cond = self.resolve(cond, state["neg"])
+                if cond in (sp.true, sp.false, True, False):
+                    branch = st["th"] if cond in (sp.true, True) else st.get("el")
+                    self.run(flat([branch] if branch is not None else []) + rest, env, state)
                     return
                 # a condition that does not involve the optical depth (assertions are macros and skipped): both arms
                 for branch in (st["th"], st.get("el")):
@@ -188,11 +237,17 @@ def rule_step(chk, fn):
     if len(odp) != 1:
         raise AnalysisBroken("%s: optical depth parameter not found" % fn["full"])
     od_id = odp[0]["id"]
-    loops = [s for s in flat(body["s"]) if s.get("k") == "While" and any(r["id"] == od_id for r in refs_in(s["c"]))]
-    if len(loops) != 1:
+    loop = loop_conds = stmts = None
+    for cand in flat(body["s"]):
+        if cand.get("k") not in ("While", "For"):
+            continue
+        conds, rest = loop_parts(cand)
+        if any(r["id"] == od_id for c in conds for r in refs_in(c)):
+            if loop is not None:
+                raise AnalysisBroken("%s: more than one traversal loop" % fn["full"])
+            loop, loop_conds, stmts = cand, conds, rest
+    if loop is None:
         raise AnalysisBroken("%s: traversal loop not found" % fn["full"])
-    loop = loops[0]
-    stmts = flat([loop["body"]])
     # the statement computing the optical depth of the step
     ti = None
     for i, st in enumerate(stmts):
@@ -208,8 +263,8 @@ def rule_step(chk, fn):
     if svar is None:
         raise AnalysisBroken("%s: the path argument of get_optical_depth is not a local" % fn["full"])
     # cursors: non-floating variables of the loop condition
-    cursors = {r["id"]: r["n"] for r in refs_in(loop["c"]) if r["id"] != od_id and not is_vec(r.get("t")) and
-               (r.get("t") or "").replace("const ", "").strip() != "double"}
+    cursors = {r["id"]: r["n"] for c in loop_conds for r in refs_in(c) if r["id"] != od_id and not is_vec(r.get("t")) and
+               (r.get("t") or "").replace("const ", "").strip() not in ("double", "bool")}
     ex = StepExec(chk, fn, loop, od_id)
     env = Env()
     env.vals[("l", svar["id"])] = ex.s
@@ -329,21 +384,42 @@ def rule_step(chk, fn):
               and local_of(x["a"][0]) is not None and local_of(x["a"][0])["id"] == pos_id]
     chk.require(bool(stored), "N1", "%s: the final position is stored in the photon" % label, where(loop, fn),
                 "no photon.set_position(<position>) after the traversal loop", function=fn["full"], construct="set_position")
-    n += rule_exit(chk, fn, loop, od_id, after, cursors)
+    n += rule_exit(chk, fn, loop, loop_conds, od_id, after, cursors)
     return n, wall_helper
+
+
+def negate(e):
+    """AST of the negation of a condition (a leading `if (c) break;` contributes !c to the loop condition)."""
+    e0 = C.strip_casts(e)
+    if e0.get("k") == "Un" and e0["op"] == "!":
+        return e0["x"]
+    return {"k": "Un", "op": "!", "x": e, "t": "bool", "l": e0.get("l")}
+
+
+def loop_parts(loop):
+    """(conjuncts of the condition under which the body runs, body statements after the leading `if (c) break;`s)."""
+    conds = split_and(loop["c"]) if loop.get("c") is not None else []
+    stmts = flat([loop["body"]])
+    while stmts and stmts[0].get("k") == "If" and stmts[0].get("el") is None and \
+            [x.get("k") for x in flat([stmts[0]["th"]])] == ["Break"]:
+        conds += split_and(negate(stmts[0]["c"]))
+        stmts = stmts[1:]
+    return conds, stmts
 
 
 def split_and(e):
     e = C.strip_casts(e)
     if e.get("k") == "Bin" and e["op"] == "&&":
         return split_and(e["a"]) + split_and(e["b"])
+    if e.get("k") == "Un" and e["op"] == "!" and C.strip_casts(e["x"]).get("k") == "Un" and C.strip_casts(e["x"])["op"] == "!":
+        return split_and(C.strip_casts(e["x"])["x"])
     return [e]
 
 
-def rule_exit(chk, fn, loop, od_id, after, cursors):
+def rule_exit(chk, fn, loop, loop_conds, od_id, after, cursors):
     """N2: end() is returned exactly under the negation of the loop's inside-condition."""
     label = fn["full"].split("(")[0]
-    inside = [c for c in split_and(loop["c"]) if not any(r["id"] == od_id for r in refs_in(c))]
+    inside = [c for c in loop_conds if not any(r["id"] == od_id for r in refs_in(c))]
     if len(inside) != 1:
         raise AnalysisBroken("%s: the loop condition is not <inside> && <optical depth left>" % label)
     g = inside[0]
@@ -361,12 +437,46 @@ def rule_exit(chk, fn, loop, od_id, after, cursors):
             if {C.pretty(c["a"]), C.pretty(c["b"])} == {C.pretty(g["a"]), C.pretty(g["b"])}:
                 return 1 if c["op"] == g["op"] else -1
         return None
-    ifs = [st for st in after if st.get("k") == "If" and polarity(st["c"]) is not None]
+    def od_polarity(c):
+        """The loop ends because the packet left the grid or because no optical depth is left: `optical depth > 0` after the
+        loop means it left the grid.  -1 (escaped when true) for `od > 0`, +1 for `od <= 0`, None otherwise."""
+        c = C.strip_casts(c)
+        if c.get("k") == "Un" and c["op"] == "!":
+            p_ = od_polarity(c["x"])
+            return -p_ if p_ else None
+        if c.get("k") == "Bin" and c["op"] in (">", "<=", "<", ">="):
+            a, b = C.strip_casts(c["a"]), C.strip_casts(c["b"])
+            op = c["op"]
+            if b.get("k") == "Ref" and b.get("id") == od_id:
+                a, b = b, a
+                op = {">": "<", "<": ">", ">=": "<=", "<=": ">="}[op]
+            if a.get("k") == "Ref" and a.get("id") == od_id and b.get("k") in ("Float", "Int") and float(b["v"]) == 0.0:
+                if op == ">":
+                    return -1
+                if op == "<=":
+                    return 1
+        return None
+    ifs = [st for st in after if st.get("k") == "If" and (polarity(st["c"]) is not None or od_polarity(st["c"]) is not None)]
+    # the conditional-expression form: return inside ? cell : end();
+    for st in after:
+        if st.get("k") == "Return" and st.get("x") is not None:
+            rx = C.strip_casts(st["x"])
+            while rx is not None and rx.get("k") == "Ctor" and len(rx["a"]) == 1:
+                rx = C.strip_casts(rx["a"][0])
+            if rx is not None and rx.get("k") == "Cond" and (polarity(rx["c"]) is not None or od_polarity(rx["c"]) is not None):
+                ifs.append({"k": "If", "c": rx["c"], "th": {"k": "Return", "x": rx["a"]}, "el": {"k": "Return", "x": rx["b"]},
+                            "l": st.get("l"), "c_": st.get("c")})
     if len(ifs) != 1:
         raise AnalysisBroken("%s: the classification after the loop does not test the loop's inside condition `%s`" % (label, gtxt))
     st = ifs[0]
     pol = polarity(st["c"])
-    out_branch, in_branch = (st["th"], st.get("el")) if pol < 0 else (st.get("el"), st["th"])
+    if pol is None:
+        pol = od_polarity(st["c"])
+        gtxt = "%s (equivalently: no optical depth is left)" % gtxt
+    el = st.get("el")
+    if el is None and st in after and any(x.get("k") == "Return" for x in flat([st["th"]])[-1:]):
+        el = {"k": "Block", "s": after[after.index(st) + 1:]}       # `if (c) return a; return b;`
+    out_branch, in_branch = (st["th"], el) if pol < 0 else (el, st["th"])
 
     def yields_end(b):
         if b is None:
@@ -390,21 +500,49 @@ def rule_linear(chk, lib):
     if not fns:
         raise AnalysisBroken("DensityGrid::get_optical_depth not found")
     fn = fns[0]
-    rets = [s for s in C.walk_stmt(fn["body"]) if s.get("k") == "Return"]
     conv = Converter(positive_atoms=True)
     env = Env()
     ds = sp.Symbol("ds", positive=True)
     env.vals[("l", fn["params"][0]["id"])] = ds
+    rets = []
+
+    def run(stmts, env):
+        for i, st in enumerate(stmts):
+            k = st.get("k")
+            if k == "Decl":
+                for d in st["d"]:
+                    if d.get("init") is not None:
+                        try:
+                            env.vals[("l", d["id"])] = conv.conv(d["init"], env)
+                        except AnalysisBroken:
+                            pass        # a reference / object local: stays an atom
+            elif k == "Bin" and st["op"] in ASSIGN and local_of(st["a"]) is not None:
+                tgt = ("l", local_of(st["a"])["id"])
+                v = conv.conv(st["b"], env)
+                old = env.vals.get(tgt)
+                env.vals[tgt] = v if st["op"] == "=" else {"+=": old + v, "-=": old - v, "*=": old * v, "/=": old / v}[st["op"]]
+            elif k == "If":
+                for br in (st["th"], st.get("el")):
+                    run(flat([br] if br is not None else []) + stmts[i + 1:], env.copy())
+                return
+            elif k == "Return":
+                rets.append((st, conv.conv(st["x"], env)))
+                return
+            elif k in ("For", "While", "Do", "Switch"):
+                raise AnalysisBroken("DensityGrid::get_optical_depth is no longer a closed formula")
+    run(flat(fn["body"]["s"]), env)
+    if not rets:
+        raise AnalysisBroken("DensityGrid::get_optical_depth: no return found")
     n = 0
-    for r in rets:
+    for r, v in rets:
         n += 1
-        v = conv.conv(r["x"], env)
         q = sp.simplify(v / ds)
-        chk.require(ds not in q.free_symbols and v != 0, "N1", "get_optical_depth is proportional to the path length", where(r, fn),
+        chk.require(v == 0 or ds not in q.free_symbols, "N1", "get_optical_depth is proportional to the path length", where(r, fn),
                     "optical depth / ds = %s still depends on ds" % q, function=fn["full"], construct="linear optical depth")
-    for st in C.walk_stmt(fn["body"]):
-        if st.get("k") in ("If", "For", "While", "Do", "Switch"):
-            raise AnalysisBroken("DensityGrid::get_optical_depth is no longer a closed formula")
+    n0 = sum(1 for r, v in rets if v != 0)
+    if not n0:
+        chk.fail("N1", "get_optical_depth is proportional to the path length", where(fn), "every return is 0", function=fn["full"],
+                 construct="linear optical depth")
     return n
 
 
